@@ -3,6 +3,7 @@ import TongoProofs.Lemmas.Helpers08
 import TongoProofs.Lemmas.TlbRead
 import TongoProofs.Lemmas.TlbSnakeCost
 import TongoProofs.Lemmas.TlbDecTotal
+import TongoProofs.Lemmas.TlbAlloc
 /-! Property C08 — TL-B and TL decoders are total on untrusted input: value or error, never a panic, no allocation or
 time out of proportion to the input. Property theorems only; lemmas live in `TongoProofs/Lemmas`.
 
@@ -17,6 +18,13 @@ open Tongo.TlD Tongo.Helpers
 fields, unsupported kinds) and every byte string, the repaired decoder returns a value or an error — never a panic. -/
 theorem tl_decode_total (ty : Ty) (bs : List UInt8) : (run Cfg.fixed ty bs).1.isPanic = false :=
   decode_np ty ⟨bs, 0, 0⟩
+
+/-- The partial operations of the TL model are live: `binary.LittleEndian.Uint32` on a short slice and `chunk[:k]`
+beyond the chunk panic. `tl_decode_total` has to PROVE they are not reached: `io.ReadFull` fills the buffer or fails
+(`readFull_ok_len`), the loop condition `len(data) < n` keeps `k = min(n - len(data), len(chunk))` within the chunk. -/
+theorem tl_partial_ops_live :
+    (u32le [1, 2, 3]).isPanic = true ∧ (u64le [1, 2, 3, 4, 5, 6, 7]).isPanic = true ∧
+    (sliceTo 4096 4097 ⟨[], 0, 0⟩).1.isPanic = true ∧ (sliceTo 4096 (-1) ⟨[], 0, 0⟩).1.isPanic = true := by decide
 
 /-- The repaired decoder requests at most `allocA ty` bytes per input byte plus `allocB ty` (constants computed from the
 descriptor: element sizes and the two preallocation caps), whatever the outcome. `ty.wf`: every vector element type
@@ -139,24 +147,31 @@ theorem tuple_total (len : Nat) (data : Tuple) (numField : Nat) :
 Element decoders (values, keys, top-of-stack values) are parameters assumed not to panic: the reflection-driven
 generic decoder over all shipped types has no theorem; it is covered by the fault-injection oracles of the harness. -/
 
+/-! NOTE on `…_by_construction`: after the readers were repaired (negative widths are errors) the ideal-level models of
+these decoders contain no operation that can panic except through their parameters; their no-panic clause is a fact
+about the SHAPE of the model, not a discharged obligation. What has content: `hashmap_total` (the key read back must fit
+a cell: `boc.NewCellWithBits` panics beyond 1023 bits), the data / copy-count clauses of `snake_steps`, the allocation
+theorems `tlb_custom_alloc` and the witnesses of the quadratic decoders, and — at the level of real bit buffers — agent
+bits' refinement theorems (C06). The fault-injection oracles carry the no-panic claim for these decoders. -/
+
 open Tongo.Tlb in
 /-- The reading primitives return a value or an error on every cell content as long as the requested width / count is
 not negative; `ReadLimUint` and `ReadUnary`, `ReadBit`, `NextRef` on every argument at all. -/
-theorem tlb_prims_total (r : Rd) (n : Int) (hn : 0 ≤ n) (m : Int) :
+theorem tlb_prims_total_by_construction (r : Rd) (n : Int) (hn : 0 ≤ n) (m : Int) :
     (readBit r).isPanic = false ∧ (nextRef r).isPanic = false ∧ (readUnary r).isPanic = false ∧
     (readUint n r).isPanic = false ∧ (readBits n r).isPanic = false ∧ (skip n r).isPanic = false ∧
     (readLimUint m r).isPanic = false :=
   ⟨readBit_np r, nextRef_np r, readUnary_np r, readUint_np n hn r, readBits_np n hn r, skip_np n hn r,
     readLimUint_np m r⟩
 
-/-- … and a negative width does panic: the callers' index arithmetic is what keeps the decoders total. -/
-theorem tlb_prims_negative_width_panics : (Tlb.readUint (-8) ⟨[], []⟩).isPanic = true :=
-  Tlb.readUint_negative_panics
+/-- a negative width is an ERROR of the repaired readers (repo fix 31abce9; it reached slicing before) -/
+theorem tlb_prims_negative_width_is_error : (Tlb.readUint (-8) ⟨[], []⟩).isErr = true :=
+  Tlb.readUint_negative_is_error
 
 /-- `loadLabel` / `loadLabelSize` never panic: for every claimed remaining key size (a Go int, negative included —
 `ReadLimUint` then reads 64 bits and `int(ln)` may wrap), every cell content, key prefix and key capacity. The
 `hml_same` loop is bounded by the key capacity, not by the 64-bit count read from the cell. -/
-theorem label_total (size : Int) (r : Tlb.Rd) (key : List Bool) (cap : Nat) :
+theorem label_total_by_construction (size : Int) (r : Tlb.Rd) (key : List Bool) (cap : Nat) :
     (Tlb.loadLabel size r key cap).isPanic = false ∧ (Tlb.loadLabelSize size r).isPanic = false :=
   ⟨Tlb.loadLabel_np size r key cap, Tlb.loadLabelSize_np size r⟩
 
@@ -172,7 +187,7 @@ theorem hashmap_total (leaf : Tlb.Rd → Outcome Unit) (hleaf : ∀ r, (leaf r).
 /-- `countLeafs` (hashmapAugExtraCountLeafs): no panic for ANY key sizes — `leftKeySize - (1 + size)` may go negative
 when a label is longer than the remaining key (nothing bounds the unary length here), and nothing breaks — and at
 most one visit per cell. -/
-theorem countLeafs_total (keySize : Int) (c : Cell) (left : Int) :
+theorem countLeafs_total_by_construction (keySize : Int) (c : Cell) (left : Int) :
     (Tlb.countLeafs keySize c left).1.isPanic = false ∧ (Tlb.countLeafs keySize c left).2 ≤ Tlb.cellCount c :=
   Tlb.countLeafs_spec keySize c left
 
@@ -187,18 +202,18 @@ theorem snake_orig_quadratic (b d : Nat) :
   Tlb.snakeOrig_chain b d
 
 /-- `BinTree` (decodeRecursiveBinTree): total, one visit per cell. -/
-theorem binTree_total (c : Cell) : (Tlb.binTree c).1.isPanic = false ∧ (Tlb.binTree c).2 ≤ Tlb.cellCount c :=
+theorem binTree_total_by_construction (c : Cell) : (Tlb.binTree c).1.isPanic = false ∧ (Tlb.binTree c).2 ≤ Tlb.cellCount c :=
   Tlb.binTree_spec c
 
 /-- `VmStack` (getStackListItems): total whatever 24-bit depth the cell announces — the recursion is bounded by the
 cells that exist, one visit per cell. -/
-theorem vmStackList_total (tos : Tlb.Rd → Outcome Unit) (htos : ∀ r, (tos r).isPanic = false) (c : Cell) (depth : Nat) :
+theorem vmStackList_total_by_construction (tos : Tlb.Rd → Outcome Unit) (htos : ∀ r, (tos r).isPanic = false) (c : Cell) (depth : Nat) :
     (Tlb.stackList tos c depth).1.isPanic = false ∧ (Tlb.stackList tos c depth).2 ≤ Tlb.cellCount c :=
   Tlb.stackList_spec tos htos c depth
 
 /-- `Maybe`, `Either`, `Ref` on cells lacking bits or references, with a pruned branch or a library cell (no resolver)
 where an ordinary cell is expected: value or error. -/
-theorem maybe_either_ref_total (inner other : Tlb.Rd → Outcome Tlb.Rd) (h1 : ∀ r, (inner r).isPanic = false)
+theorem maybe_either_ref_total_by_construction (inner other : Tlb.Rd → Outcome Tlb.Rd) (h1 : ∀ r, (inner r).isPanic = false)
     (h2 : ∀ r, (other r).isPanic = false) (r : Tlb.Rd) :
     (Tlb.maybe inner r).isPanic = false ∧ (Tlb.either inner other r).isPanic = false ∧
     (Tlb.ref inner r).isPanic = false :=
@@ -209,6 +224,54 @@ example : ∀ r : Tlb.Rd, ((Tlb.readUint 32 r).bind fun _ => Outcome.ok ()).isPa
   intro r
   have := Tlb.readUint_np 32 (by decide) r
   cases h : Tlb.readUint 32 r <;> simp_all [Outcome.bind, Outcome.isPanic]
+
+/-! ## TL-B: allocation of the modelled hand-written decoders -/
+
+/-- Allocation in proportion to the cells of the unfolded tree, for the repaired decoders:
+the VM stack list requests at most two slice elements per cell WHATEVER 24-bit depth the cell announces; BinTree
+appends at most one pointer per cell; SnakeData copies every bit below the root exactly once (so at most the data it
+returns); the hashmap walk visits every cell at most once (its allocation per visit is constant: two key-prefix copies
+of `keySize` bits, one key cell, one append — read off the code, not modelled separately). -/
+theorem tlb_custom_alloc (tos : Cell → Bool) (c : Cell) (depth : Nat) :
+    (Tlb.stackFixed tos c depth).2 ≤ 2 * Tlb.cellCount c ∧
+    (Tlb.binFixed c).2 ≤ Tlb.cellCount c ∧
+    (∀ d k, (Tlb.snake false c).1 = .ok (d, k) → k ≤ d.length) := by
+  refine ⟨Tlb.stackFixed_alloc tos c depth, Tlb.binFixed_alloc c, ?_⟩
+  intro d k h
+  -- the repaired decoder agrees with the original on the data and copies d.length - |root bits| bits
+  have hs := Tlb.snake_spec c
+  obtain ⟨h1, h2, _, _, _, h6, h7⟩ := hs
+  cases ho : (Tlb.snake true c).1 with
+  | ok v =>
+    obtain ⟨d', k'⟩ := v
+    obtain ⟨hf, _, _⟩ := h6 d' k' ho
+    rw [hf] at h
+    simp only [Outcome.ok.injEq, Prod.mk.injEq] at h
+    obtain ⟨rfl, rfl⟩ := h
+    omega
+  | err e => rw [h7 e ho] at h; cases h
+  | panic p => rw [ho] at h1; simp [Outcome.isPanic] at h1
+
+/-- DEFECT (code as found, repo fix 7c8a920): `getStackListItems` copied the decoded rest of the list at every level —
+`d(d+1)/2` element copies for a stack of depth `d` (measured on Go: depth 8000, about 100 KB of cells, 9.7 GB / 7 s).
+Replayed by the `go.tlb.deep vmstack` oracle. -/
+theorem vmstack_orig_quadratic (d : Nat) :
+    ∃ a, Tlb.stackCopy (fun _ => true) (Tlb.stackChain d) d = (.ok d, a) ∧ 2 * a = d * (d + 1) :=
+  Tlb.stackCopy_chain d
+
+/-- The shape of seeded defect C08-3 (`make([]VmStackValue, 0, depth)` with the depth from the wire): ONE cell that
+announces depth `D` requests `D` elements — no bound in the cells of the input. The repaired decoder sizes its slice by
+the cells it has actually found (`tlb_custom_alloc`). -/
+theorem vmstack_prealloc_violates (D : Nat) (hD : 0 < D) :
+    (Tlb.stackPrealloc (fun _ => true) (.mk 0 0 [] []) D).2 = D ∧ Tlb.cellCount (.mk 0 0 [] []) = 1 :=
+  Tlb.stackPrealloc_witness D hD
+
+/-- DEFECT (code as found, repo fix f3accb8): `decodeRecursiveBinTree` returned a slice per subtree and appended it in
+the parent — `(d² + 5d + 2)/2` pointer copies on a comb of depth `d` (measured: 32001 cells, 1 GB). Replayed by
+`go.tlb.deep bintree`. -/
+theorem bintree_orig_quadratic (d : Nat) :
+    ∃ a, Tlb.binCopy (Tlb.comb d) = (.ok (d + 1), a) ∧ 2 * a = d * d + 5 * d + 2 :=
+  Tlb.binCopy_comb d
 
 /-! ## TL-B: the reflection-driven generic decoder (agent tlb's model `Tongo.Tlb.decode`, tied to tlb/decoder.go by C03)
 
